@@ -40,6 +40,8 @@ ASSUMPTIONS = [
 REQUIRED_CELLS = {
     'quick': ['dH:kind=rxn', 'dH:kind=item', 'dH:tagged', 'dH:wt', 'iso:rxn', 'iso:par', 'iso:ser', 'iso:sys',
               'iso:item', 'adb:item', 'dH:derive=copy_other', 'dH:derive=copy_other,set', 'dH:derive=copy_set',
+              'dH:reactant-inferred', 'dH:intX', 'iso:reactant-inferred', 'adb:reactant-inferred', 'iso:trace',
+              'adb:trace', 'iso:reX=whole', 'iso:reX=members', 'adb:reX=whole', 'adb:reX=members',
               'iso:via=copy_other', 'iso:via=copy_set', 'iso:obj=cp', 'adb:via=copy_other', 'adb:obj=cp', 'iso:ref298.reported', 'iso:xpkg', 'adb:xpkg', 'iso:locked', 'adb:locked',
               'iso:wt', 'iso:tagged', 'iso:ref298', 'iso:phase=g', 'iso:phase=l', 'adb:rxn', 'adb:par', 'adb:ser',
               'adb:sys', 'adb:wt', 'adb:tagged', 'adb:phase=g', 'adb:phase=l', 'adb:Q=0', 'adb:Q=target'],
@@ -55,7 +57,9 @@ MAT = 1e-12
 # drawing
 # ---------------------------------------------------------------------------
 
-def draw_X(ch, tag):
+def draw_X(ch, tag, ints=False):
+    if ints:      # conversions written as Python integers (X=1 is the most common spelling in user code)
+        return ch.choice(f'{tag}.X.int', [1, 1, 0])
     k = ch.choice(f'{tag}.X.kind', ['float', 'float', 'float', 'one', 'zero', 'small'])
     if k == 'one': return 1.0
     if k == 'zero': return 0.0
@@ -63,16 +67,25 @@ def draw_X(ch, tag):
     return ch.float(f'{tag}.X', 0.0, 1.0)
 
 
-def draw_spec(ch, tag, pool, basis, tag_phases=None, fixed_phase=None, restrict=None, kmin=2):
+def draw_spec(ch, tag, pool, basis, tag_phases=None, fixed_phase=None, restrict=None, kmin=2, intX=False):
     """One reaction description.  tag_phases: list of phases for a phase-tagged reaction (None: phase-less).
     fixed_phase: {name: phase} forcing the tagged phase (reference-phase mode).
     restrict: {name: [allowed phases]} (e.g. Glucose has no gas enthalpy model)."""
     names, nu = R.draw_stoichiometry(ch, tag, pool, kmin=kmin)
     if names is None:
         return None
+    # a reaction with a single reactant may leave `reactant` to be inferred (documented default)
+    infer = False
+    nneg = sum(1 for x in nu if x < 0)
+    if (nneg == 1 or nneg == len(nu) - 1) and ch.bool(f'{tag}.infer'):
+        infer = True
+        if nneg != 1: nu = [-x for x in nu]
+        reactant = [nm for nm, x in zip(names, nu) if x < 0][0]
+    else:
+        reactant = ch.choice(f'{tag}.reactant', names)
     spec = {'names': names, 'nu': nu,
-            'reactant': ch.choice(f'{tag}.reactant', names),
-            'X': draw_X(ch, tag),
+            'reactant': reactant,
+            'X': draw_X(ch, tag, intX),
             'how': 'mol' if basis == 'mol' else ch.choice(f'{tag}.how', ['copy_wt', 'set_wt', 'wt_coeff']),
             'form': ch.choice(f'{tag}.form', ['str', 'dict'])}
     if tag_phases:
@@ -85,6 +98,7 @@ def draw_spec(ch, tag, pool, basis, tag_phases=None, fixed_phase=None, restrict=
                 po[nm] = ch.choice(f'{tag}.phase.{nm}', allowed)
             spec['phase_of'] = po
         spec['phases_kw'] = list(tag_phases)
+    if infer: spec['infer'] = True
     return spec
 
 
@@ -108,7 +122,8 @@ def build_tagged_aware(spec, th):
         kw = {}
         if used != sorted(spec['phases_kw']) or spec.get('force_phases_kw'):
             kw['phases'] = tuple(spec['phases_kw'])
-        rxn = tmo.Reaction(defn, reactant=spec['reactant'], X=spec['X'], chemicals=chems, basis=basis, **kw)
+        rxn = tmo.Reaction(defn, reactant=None if spec.get('infer') else spec['reactant'], X=spec['X'],
+                           chemicals=chems, basis=basis, **kw)
         if spec['how'] == 'copy_wt': rxn = rxn.copy(basis='wt')
         elif spec['how'] == 'set_wt': rxn.basis = 'wt'
         return rxn
@@ -126,10 +141,11 @@ def build_struct(struct, th):
 def draw_struct(ch, tag, kind, mk, depth=0):
     """mk(tag) draws one reaction spec."""
     if kind == 'rxn':
-        return ('rxn', mk(tag))
+        return ('rxn', mk(tag, ch.int(f'{tag}.intX', 0, 3) == 3))
     if kind in ('par', 'ser'):
         n = ch.int(f'{tag}.n', 1, 3)
-        return (kind, [mk(f'{tag}.r{i}') for i in range(n)])
+        ints = ch.int(f'{tag}.intX', 0, 3) == 3      # every member written with an integer conversion
+        return (kind, [mk(f'{tag}.r{i}', ints) for i in range(n)])
     n = ch.int(f'{tag}.nsys', 1, 3)
     subs = []
     for i in range(n):
@@ -172,6 +188,39 @@ def with_X(struct, X):
     if kind == 'rxn': return ('rxn', dict(body, X=X))
     if kind in ('par', 'ser'): return (kind, [dict(sp, X=X) for sp in body])
     return ('sys', [with_X(sub, X) for sub in body])
+
+
+def redraw_X(ch, struct, tag='reX'):
+    """New (float) conversion for every reaction of the structure; returns the structure with them."""
+    kind, body = struct
+    if kind == 'rxn': return ('rxn', dict(body, X=draw_X(ch, tag)))
+    if kind in ('par', 'ser'): return (kind, [dict(sp, X=draw_X(ch, f'{tag}.r{i}')) for i, sp in enumerate(body)])
+    return ('sys', [redraw_X(ch, sub, f'{tag}.m{i}') for i, sub in enumerate(body)])
+
+
+def nested_X(struct):
+    kind, body = struct
+    if kind == 'rxn': return body['X']
+    if kind in ('par', 'ser'): return [sp['X'] for sp in body]
+    return [nested_X(sub) for sub in body]
+
+
+def assign_X(obj, struct, via):
+    """Re-assign conversions after construction: through the object's own X setter (whole array / nested
+    list) or member by member (items of a set, members of a system)."""
+    kind, body = struct
+    if kind == 'rxn':
+        obj.X = body['X']
+    elif kind in ('par', 'ser'):
+        if via == 'whole':
+            obj.X = [sp['X'] for sp in body]
+        else:
+            for i, sp in enumerate(body): obj[i].X = sp['X']
+    else:
+        if via == 'whole':
+            obj.X = nested_X(struct)
+        else:
+            for m, sub in zip(obj.reactions, body): assign_X(m, sub, via)
 
 
 def derive(ch, ctx, obj, basis, site, region):
@@ -246,13 +295,15 @@ def draw_case(ch, ctx, clause):
             kmin = 4
         else:
             pool = names_all
-    mk = lambda t: draw_spec(ch, t, pool, basis, tag_phases=phases, fixed_phase=fixed, restrict=restrict, kmin=kmin)
+    mk = lambda t, ints=False: draw_spec(ch, t, pool, basis, tag_phases=phases, fixed_phase=fixed,
+                                        restrict=restrict, kmin=kmin, intX=ints)
     item = None
     if kind == 'item':
         # one member of a reaction set, used on its own (a ReactionItem)
         item = {'set': ch.choice('item.set', ['par', 'ser']), 'via': ch.choice('item.via', ['iter', 'index']),
                 'n': ch.int('item.n', 1, 3)}
-        item['specs'] = [mk(f'S.r{i}') for i in range(item['n'])]
+        ints = ch.int('item.intX', 0, 3) == 3
+        item['specs'] = [mk(f'S.r{i}', ints) for i in range(item['n'])]
         item['k'] = ch.int('item.k', 0, item['n'] - 1)
         if any(sp is None for sp in item['specs']):
             ctx.reject('no balanced reaction over the drawn subset')
@@ -323,6 +374,12 @@ def prepare(ch, ctx, clause):
         parent, rxn = ctx.call(f'{clause}.build', build_item, region=region)
     else:
         rxn = ctx.call(f'{clause}.build', build_struct, case['struct'], th, region=region)
+    # conversions re-assigned after construction (item / set / system X setters)
+    if ch.bool('reX'):
+        via = ch.choice('reX.via', ['whole', 'members'])
+        case['struct'] = redraw_X(ch, case['struct'])
+        ctx.cell(f'{clause}:reX={via}')
+        ctx.call(f'{clause}.setX', assign_X, rxn, case['struct'], via, region=f'{region},reX={via}')
     # derive a counterpart first (other-basis copy, plain copy, basis setter on a copy), then use one of the two
     src = rxn
     if parent is not None and ch.bool('derive.from_set'):
@@ -344,7 +401,14 @@ def prepare(ch, ctx, clause):
     feed, ok = R.make_feasible(case['struct'], case['feed'], schems, case['phases'], case['margin'])
     # topped up with no margin: a co-reactant is consumed exactly, feasibility is decided by round-off
     case['boundary'] = case['margin'] == 0.0 and not np.array_equal(feed, case['feed'])
+    # trace streams: the same composition at a total flow of 1e-12..1e-10 kmol/hr (all balances are linear in it)
+    case['trace'] = False
+    if ch.choice('feed.scale', ['normal', 'normal', 'normal', 'trace']) == 'trace' and feed.sum() > 0:
+        feed = feed * (ch.logfloat('feed.total', -12, -10) / feed.sum())
+        case['trace'] = True
+        ctx.cell(f'{clause}:trace')
     case['feed'] = feed
+    case['unit'] = min(1.0, float(feed.sum()))        # absolute floors scale with the stream
     out, ext = R.ref_react(case['struct'], feed, schems, case['phases'])
     case.update(ref_out=out, ext=ext, feasible=ok and not (out < 0).any())
     return case
@@ -374,7 +438,7 @@ def scale_of(case, T):
 def check_material(ctx, case, s, site, region):
     got = R.dense(s)
     want = np.where(case['ref_out'] < 0, 0.0, case['ref_out'])
-    sc = max(1.0, float(np.abs(case['feed']).sum()))
+    sc = float(np.abs(case['feed']).sum()) or 1.0
     err = float(np.abs(got - want).max()) if got.shape == want.shape else float('inf')
     if not err <= MAT * sc:
         ctx.fail(f'{site}.material|{region}|mismatch', f'flows differ from the reference by {err!r} (scale {sc!r})')
@@ -389,6 +453,9 @@ def cells(ctx, pre, case):
     if case['xpkg']: ctx.cell(f'{pre}:xpkg')
     if case['pkg'] == 'LK': ctx.cell(f'{pre}:locked')
     ctx.cell(f'{pre}:via={case["via"]}'); ctx.cell(f'{pre}:obj={case["obj"]}')
+    specs = R.all_specs(case['struct'])
+    if any(sp.get('infer') for sp in specs): ctx.cell(f'{pre}:reactant-inferred')
+    if any(isinstance(sp['X'], int) for sp in specs): ctx.cell(f'{pre}:intX')
 
 
 # ---------------------------------------------------------------------------
@@ -408,7 +475,8 @@ def prop_dH(ch, ctx):
     if tagged:
         tag_phases = ch.choice('phases', [['g', 'l'], ['g', 'l', 's'], ['l', 's'], ['g', 's'], ['g'], ['l'], ['s']])
     n = 1 if kind == 'rxn' else ch.int('n', 1, 4)
-    specs = [draw_spec(ch, f'r{i}', pool, basis, tag_phases=tag_phases) for i in range(n)]
+    ints = ch.int('intX', 0, 3) == 3
+    specs = [draw_spec(ch, f'r{i}', pool, basis, tag_phases=tag_phases, intX=ints) for i in range(n)]
     if any(sp is None for sp in specs):
         ctx.reject('no balanced reaction over the drawn subset')
     k = 0 if n == 1 else ch.int('k', 0, n - 1)
@@ -416,6 +484,8 @@ def prop_dH(ch, ctx):
     ctx.cell('dH:kind=' + ('rxn' if kind == 'rxn' else 'item')); ctx.cell('dH:via=' + kind)
     if tagged: ctx.cell('dH:tagged'); ctx.cell('dH:phases=' + ''.join(tag_phases))
     if basis == 'wt': ctx.cell('dH:wt')
+    if specs[k].get('infer'): ctx.cell('dH:reactant-inferred')
+    if ints: ctx.cell('dH:intX')
     rxns = [ctx.call('dH.build', build_tagged_aware, sp, th, region=region) for sp in specs]
     if kind == 'rxn':
         target = rxns[0]
@@ -507,7 +577,7 @@ def react(ctx, case, site, region, fn):
         if case['feasible'] and float(case['ref_out'].min()) >= 0.0:
             ctx.fail(f'{site}|{region}|exc:InfeasibleRegion', f'feasible feed rejected: {e}')
         ctx.reject('infeasible feed (InfeasibleRegion)')
-    if not case['feasible'] and float(case['ref_out'].min()) < -1e-9 * max(1.0, float(case['feed'].sum())):
+    if not case['feasible'] and float(case['ref_out'].min()) < -1e-12 * float(case['feed'].sum()):
         ctx.reject('infeasible feed accepted (C05 subject)')
 
 
@@ -544,7 +614,7 @@ def prop_iso(ch, ctx):
         want_dHf += e * sum((x / nu_r) * by[nm].Hf for nm, x in zip(sp['names'], sp['nu']))
     err = abs((Hf1 - Hf0) - want_dHf)
     if s_hf: ctx.metric_max('iso.Hf:rel_err', err / s_hf)
-    if not err <= REL * s_hf + 1e-9:
+    if not err <= REL * s_hf + 1e-9 * case['unit']:
         ctx.fail(f'iso.Hf|{region}|mismatch',
                  f'change of stream.Hf {Hf1 - Hf0!r}, X*sum(nu*Hf)*n_fed = {want_dHf!r}')
     # the reported dH (minus its latent part) times the reactant fed is that change, at any T
@@ -559,14 +629,14 @@ def prop_iso(ch, ctx):
         err = abs((Hf1 - Hf0) - want)
         s_lat = abs(lat * n_fed)
         if s_hf: ctx.metric_max('iso.dHfed:rel_err', err / (s_hf + s_lat))
-        if not err <= REL * (s_hf + s_lat) + 1e-9:
+        if not err <= REL * (s_hf + s_lat) + 1e-9 * case['unit']:
             ctx.fail(f'iso.dHfed|{region}|mismatch',
                      f'(dH - latent)*n_fed = {want!r} but stream.Hf changed by {Hf1 - Hf0!r}')
     # change of Hnet = sum dn (Hf + H(phase,T,P)), pure-component enthalpies read independently
     want_dHnet = (t['Hf1'] - t['Hf0']) + (t['H1'] - t['H0'])
     err = abs((Hnet1 - Hnet0) - want_dHnet)
     if s_hf + s_h: ctx.metric_max('iso.Hnet:rel_err', err / (s_hf + s_h))
-    if not err <= REL * (s_hf + s_h) + 1e-9:
+    if not err <= REL * (s_hf + s_h) + 1e-9 * case['unit']:
         ctx.fail(f'iso.Hnet|{region}|mismatch',
                  f'change of stream.Hnet {Hnet1 - Hnet0!r}, sum dn (Hf + H) = {want_dHnet!r} at T={T}')
     # at 298.15 K with every participant in its reference phase: dHnet = dH * n_fed
@@ -586,14 +656,14 @@ def prop_iso(ch, ctx):
             want = float(reported) * n_fed
             err = abs((Hnet1 - Hnet0) - want)
             if s_hf + s_h: ctx.metric_max('iso.ref298:rel_err', err / (s_hf + s_h))
-            if not err <= REL * (s_hf + s_h) + 1e-9:
+            if not err <= REL * (s_hf + s_h) + 1e-9 * case['unit']:
                 ctx.fail(f'iso.ref298|{region}|mismatch',
                          f'dH*n_fed = {want!r} but stream.Hnet changed by {Hnet1 - Hnet0!r}')
         err = abs((Hnet1 - Hnet0) - want_dHf)
-        if not err <= REL * (s_hf + s_h) + 1e-9:
+        if not err <= REL * (s_hf + s_h) + 1e-9 * case['unit']:
             ctx.fail(f'iso.ref298|{region}|mismatch-sets',
                      f'sum dH_r*n_fed_r = {want_dHf!r} but stream.Hnet changed by {Hnet1 - Hnet0!r}')
-    if abs(want_dHnet) > 1.0:
+    if abs(want_dHnet) > 1.0 * case['unit']:
         ctx.cell('iso:nontrivial')
         ctx.nontriv(['iso', case['pkg'], case['basis'], case['phases'], case['xpkg'], case['mode'],
                      T == R.T_REF, struct_key(case['struct']), (case['feed'] != 0).astype(int).tolist(),
@@ -665,9 +735,9 @@ def prop_adiabatic(ch, ctx):
     C1 = R.C_total(chems, phases, out, T1, P)
     s_hf, s_h = scale_of(case, T)
     s_h1 = sum(out[r, j] * abs(R.pure_H(c, p, T1, P)) for r, p in enumerate(phases) for j, c in enumerate(chems) if out[r, j])
-    tol = 100.0 * C1 * T_TOL + REL * (s_hf + s_h + s_h1) + 1e-9
+    tol = 100.0 * C1 * T_TOL + REL * (s_hf + s_h + s_h1) + 1e-9 * case['unit']
     err = abs(Hnet1 - (Hnet0 + Q))
-    ctx.metric_max('adb.Hnet:err/tol', err / tol)
+    if tol > 0: ctx.metric_max('adb.Hnet:err/tol', err / tol)
     if not err <= tol:
         ctx.fail(f'adb.Hnet|{region}|mismatch',
                  f'Hnet after {Hnet1!r} != Hnet before {Hnet0!r} + Q {Q!r} (off by {Hnet1 - Hnet0 - Q!r}, tol {tol!r}); T {T}->{T1}')
@@ -675,7 +745,7 @@ def prop_adiabatic(ch, ctx):
     ref1 = R.Hf_total(chems, out) + R.H_total(chems, phases, out, T1, P)
     ref0 = t['Hf0'] + t['H0']
     err = abs(ref1 - (ref0 + Q))
-    ctx.metric_max('adb.ref:err/tol', err / tol)
+    if tol > 0: ctx.metric_max('adb.ref:err/tol', err / tol)
     if not err <= tol:
         ctx.fail(f'adb.ref|{region}|mismatch',
                  f'reference Hnet at outlet T {ref1!r} != reference Hnet of feed {ref0!r} + Q {Q!r}; T {T}->{T1}')
@@ -684,7 +754,7 @@ def prop_adiabatic(ch, ctx):
         ctx.metric_max('adb.T:abs_err', dT)
         if not dT <= 1e-4:
             ctx.fail(f'adb.T|{region}|mismatch', f'outlet T {T1!r}, reference {T_target!r}')
-    if abs(heat) > 1.0:
+    if abs(heat) > 1.0 * case['unit']:
         ctx.cell('adb:nontrivial')
         ctx.nontriv(['adb', case['pkg'], case['basis'], phases, case['xpkg'], case['mode'], qmode,
                      struct_key(case['struct']), (feed != 0).astype(int).tolist(), case['via'], case['obj']])
